@@ -40,6 +40,8 @@ pub struct Case {
     pub ends: Vec<End>,
     /// the peer GOAWAY is sent before the content of request number `goaway_at` (== len: after all)
     pub goaway_at: usize,
+    /// the requests arrive in descending stream-ID order (the h3::quic traits allow any order)
+    pub reversed: bool,
 }
 
 #[derive(Debug, Clone, Default, PartialEq, Eq)]
@@ -162,14 +164,14 @@ pub fn execute(case: &Case, seed: u64) -> Outcome {
                 if i == case.ends.len() {
                     break;
                 }
-                let id = i as u64 * 4;
+                let id = if case.reversed { (case.ends.len() - 1 - i) as u64 * 4 } else { i as u64 * 4 };
                 net.raw_open(id);
                 let valid = {
                     let mut b = rf::frame(rf::HEADERS, REQ_SECTION);
                     b.extend(rf::frame(rf::DATA, b"hello"));
                     b
                 };
-                match case.ends[i] {
+                match case.ends[(id / 4) as usize] {
                     End::FinBeforeHeaders => net.raw_fin(CLIENT, id),
                     End::ResetBeforeHeaders => net.raw_reset(CLIENT, id, 0x10c),
                     End::ResetAfterHeaders => {
@@ -221,7 +223,7 @@ pub fn execute(case: &Case, seed: u64) -> Outcome {
 }
 
 pub fn judge(case: &Case, o: &Outcome) -> Vec<(String, String)> {
-    let ctx = format!("requests ending {:?}, peer GOAWAY before request #{}", case.ends, case.goaway_at);
+    let ctx = format!("requests (by stream id / 4) ending {:?}, arriving in {} id order, peer GOAWAY before arrival #{}", case.ends, if case.reversed { "descending" } else { "ascending" }, case.goaway_at);
     let mut out = Vec::new();
     for (t, p) in &o.panics {
         out.push((format!("C09:panic@{}", explore::panics::short_loc(p)), format!("{ctx}: task {t} panicked: {p}")));
@@ -268,7 +270,7 @@ pub fn run(args: &Args) -> i32 {
     let mut rep = Report::new("C09", args.tier, args.seed, "model_checking");
     rep.exhaustive = true;
     rep.rule = format!(
-        "0..{n} requests, each ending in one of {{normal finish, resolver dropped before resolve_request, FIN before HEADERS, RESET before HEADERS, RESET after HEADERS, malformed headers, oversized headers, split into halves dropped send-first / recv-first, handler still running}} (all {}^k assignments), the peer's GOAWAY injected before each request and after the last, every execution with <= {bound} scheduling deviations among the accept loop, the handler tasks and the script. Oracle at quiescence: GOAWAY delivered and every handed-out request ended => accept() has returned Ok(None); accept() never returns Ok(None) while a handler still holds a request handle. states = distinct (transport, progress) fingerprints; non-trivial = cases with at least one request.",
+        "0..{n} requests, each ending in one of {{normal finish, resolver dropped before resolve_request, FIN before HEADERS, RESET before HEADERS, RESET after HEADERS, malformed headers, oversized headers, split into halves dropped send-first / recv-first, handler still running}} (all {}^k assignments), the peer's GOAWAY injected before each request and after the last, requests arriving in ascending and in descending stream-ID order, every execution with <= {bound} scheduling deviations among the accept loop, the handler tasks and the script. Oracle at quiescence: GOAWAY delivered and every handed-out request ended => accept() has returned Ok(None); accept() never returns Ok(None) while a handler still holds a request handle. states = distinct (transport, progress) fingerprints; non-trivial = cases with at least one request.",
         ENDS.len()
     );
     rep.assumptions = vec!["liveness is decided at quiescence of the closed world (no timers, nothing in flight), where 'still pending' means 'pending forever'".into()];
@@ -290,7 +292,10 @@ pub fn run(args: &Args) -> i32 {
     }
     for c in combos {
         for g in 0..=c.len() {
-            cases.push(Case { ends: c.clone(), goaway_at: g });
+            cases.push(Case { ends: c.clone(), goaway_at: g, reversed: false });
+            if c.len() >= 2 {
+                cases.push(Case { ends: c.clone(), goaway_at: g, reversed: true });
+            }
         }
     }
     let seed = args.seed;
@@ -322,7 +327,7 @@ pub fn run(args: &Args) -> i32 {
         if !case.ends.is_empty() {
             acc.nontrivial.insert(explore::fnv_str(&format!("{case:?}")));
         }
-        viol.drain_into(acc, |choices| json!({"ends": case.ends.iter().map(|e| format!("{e:?}")).collect::<Vec<_>>(), "goaway_at": case.goaway_at, "choices": choices, "seed": seed}));
+        viol.drain_into(acc, |choices| json!({"ends": case.ends.iter().map(|e| format!("{e:?}")).collect::<Vec<_>>(), "goaway_at": case.goaway_at, "reversed": case.reversed, "choices": choices, "seed": seed}));
     });
     let mut total = Acc::new();
     for a in accs {
@@ -339,6 +344,7 @@ pub fn replay(r: &Value) -> i32 {
     let case = Case {
         ends: r["ends"].as_array().unwrap().iter().map(|s| *ENDS.iter().find(|e| format!("{e:?}") == s.as_str().unwrap()).unwrap()).collect(),
         goaway_at: r["goaway_at"].as_u64().unwrap() as usize,
+        reversed: r["reversed"].as_bool().unwrap_or(false),
     };
     let seed = r["seed"].as_u64().unwrap_or(0);
     let choices: Vec<u32> = r["choices"].as_array().unwrap().iter().map(|v| v.as_u64().unwrap() as u32).collect();
